@@ -171,6 +171,38 @@ Proof.
 Qed.
 Print Assumptions C39_nested_draws.
 
+(* RND(0) AFTER ANY OPERATION, in particular straight after RANDOMIZE: for every history and every last
+   operation o (RND, RND(x), RANDOMIZE with any Integer / Single / Double argument - well-formed bytes or not -,
+   CLEAR/RUN, expressions with several or nested draws) the stored seed s is a reduced 24-bit number, RND(0)
+   returns exactly s/2^24, that value lies in [0,1), RND(0) can be repeated, and the next RND is exactly one
+   generator step further *)
+Theorem C39_rnd0_after_any_operation : forall ops o v f,
+  to_single v = Ok f -> sng_is_zero f = true ->
+  let s := exec seed0 (ops ++ [o]) in
+  0 <= s < 2 ^ 24 /\
+  rnd_fn s (Some v) = Ok (s, rnd_bytes s) /\
+  (sng_valQ (rnd_bytes s) == s # 16777216)%Q /\
+  (0 <= sng_valQ (rnd_bytes s))%Q /\ (sng_valQ (rnd_bytes s) < 1)%Q /\
+  rnd_fn s None = Ok (cycle s, rnd_bytes (cycle s)).
+Proof. intros ops o v f. exact (rnd0_after_history (ops ++ [o]) v f). Qed.
+Print Assumptions C39_rnd0_after_any_operation.
+
+(* RANDOMIZE with a numeric argument never fails, and what it stores after any history is the reduced value
+   (cycle (old seed mod 256) + n * step) mod 2^24, n the signed 16-bit number read from the argument bytes *)
+Theorem C39_randomize_stores_reduced_seed : forall ops v, v <> VStr ->
+  let s := exec seed0 ops in
+  randomize_fn s v = Ok (reseed s (value_bytes v)) /\
+  exec seed0 (ops ++ [ORandomize v]) = reseed s (value_bytes v) /\
+  reseed s (value_bytes v) =
+    (cycle (s mod 256) + reseed_n (value_bytes v) * rnd_step) mod 2 ^ 24 /\
+  0 <= reseed s (value_bytes v) < 2 ^ 24.
+Proof.
+  intros ops v Hv s. destruct (randomize_numeric s v Hv) as [E R].
+  split; [exact E|]. split; [exact (exec_randomize ops v Hv)|]. split; [|exact R].
+  unfold reseed, rnd_reseed_tail, cycle. rewrite land255. reflexivity.
+Qed.
+Print Assumptions C39_randomize_stores_reduced_seed.
+
 (* non-vacuity: the hypotheses of the theorems above are satisfiable (stated without pinning the
    generator's constants, which the property text does not fix) *)
 Example C39_nonvacuous :
